@@ -149,13 +149,21 @@ pub fn execute(sc: &Scenario, other_key: &rsa::RsaPublicKey) -> Outcome {
         let o = rt.block_on(execute_async(&sc2, &key2));
         let _ = tx.send(o);
     });
-    match rx.recv_timeout(Duration::from_secs(60)) {
+    // after three hangs every further scenario is answered "hang" at once: each hung thread keeps a core busy
+    static HANGS: AtomicUsize = AtomicUsize::new(0);
+    let hung = |waited: bool| -> Outcome {
+        let steps: Vec<String> = sc.steps.iter().map(|s| { let d = format!("{s:?}"); d.chars().take(100).collect::<String>().replace(' ', "") }).collect();
+        let request = format!("conn.hang waited={} secret={} max_len={} steps={}", u8::from(waited), u8::from(sc.secret.is_some()), sc.max_len, steps.join(","));
+        Outcome { request: request.clone(), observed: "hang".into(), events: vec![], result: "hang".into(), auth_cookie_json: None, wall_before: 0, wall_after: 0, inputs: vec![], undecodable: false,
+            event_steps: vec![], request1: request, max_alloc: 0, panicked: false, packet_ms: vec![] }
+    };
+    if HANGS.load(Ordering::SeqCst) >= 3 { return hung(false); }
+    match rx.recv_timeout(Duration::from_secs(20)) {
         Ok(o) => o,
         Err(_) => {
-            let steps: Vec<String> = sc.steps.iter().map(|s| { let d = format!("{s:?}"); d.chars().take(120).collect() }).collect();
-            eprintln!("HANG: the connection handler did not settle within 60 s of real time (busy loop or dead-lock) on the scenario secret={} max_len={} steps={:?}", sc.secret.is_some(), sc.max_len, steps);
-            println!("HANG: the connection handler did not settle within 60 s of real time (busy loop or dead-lock) on the scenario steps={:?}", steps);
-            std::process::exit(3);
+            HANGS.fetch_add(1, Ordering::SeqCst);
+            eprintln!("HANG: the connection handler did not settle within 20 s of real time (busy loop or dead-lock)");
+            hung(true)
         }
     }
 }
